@@ -175,7 +175,12 @@ fn write_evidence(
         "violations": violations,
     });
     std::fs::create_dir_all(format!("{VERIF}/evidence"))?;
-    let path = format!("{VERIF}/evidence/{}.json", meta.prop.id);
+    // a second batch run with another build of the harness (VERIF_BUILD=shipping) keeps its
+    // numbers next to the main evidence file instead of overwriting it
+    let path = match std::env::var("VERIF_BUILD") {
+        Ok(b) if !b.is_empty() => format!("{VERIF}/evidence/{}.{b}-build.json", meta.prop.id),
+        _ => format!("{VERIF}/evidence/{}.json", meta.prop.id),
+    };
     std::fs::write(&path, serde_json::to_string_pretty(&ev).unwrap() + "\n")
 }
 
@@ -183,10 +188,18 @@ fn write_replay(meta: &Meta, original: &Trace, min: &Trace, o: &Outcome, execs: 
     #[allow(non_snake_case)]
     let VERIF = verif_root();
     std::fs::create_dir_all(format!("{VERIF}/replays"))?;
-    let path = format!("{VERIF}/replays/{}-{}-{}.json", meta.prop.id, original.seed, original.run);
+    // a violation that only the harness built without debug assertions shows must be replayed by
+    // that build: the replay file names its engine
+    let build = std::env::var("VERIF_BUILD").unwrap_or_default();
+    let (path, engine) = if build.is_empty() {
+        (format!("{VERIF}/replays/{}-{}-{}.json", meta.prop.id, original.seed, original.run), "iosim".to_string())
+    } else {
+        (format!("{VERIF}/replays/{}-{build}-{}-{}.json", meta.prop.id, original.seed, original.run), format!("iosim-{build}"))
+    };
     let v = o.violation.as_ref().unwrap();
     let doc = json!({
         "property": meta.prop.id,
+        "engine": engine,
         "violation_class": v.class,
         "violation_detail": v.detail,
         "event_log_hash": format!("{:016x}", o.hash),
